@@ -26,7 +26,7 @@ int main(void) {
         if(sscanf(line, "%d %d %d %ld %ld %d %d %d %s %d %s %s", &comp, &level, &manual, &mn, &mx, &ht, &cht, &uflag, dict, &fd0, ops, rs) != 12) {
             printf("BADCASE\n"); fflush(stdout); continue;
         }
-        alarm(15);
+        alarm(30);
         int saved0 = -1;
         int out = zh_memfd("", 0);
         if(fd0) { saved0 = dup(0); close(0); }          /* descriptor 0 is free while the writer is set up */
